@@ -7,6 +7,7 @@
        membership of the four DictLists, to back references and to groups)
      cobra.manipulation.delete.remove_genes (flat "or" rules)                    manipulation/delete.py
      Object.id setter -> _set_id_with_model of Reaction / Metabolite / Gene / Group   core/object.py ...
+     cobra.manipulation.modify.escape_ID (the identifier setter for every object)     manipulation/modify.py
 
    All Python objects of a history exist from the start; an object is a class and an integer, `ref`.
    `lst s c` is the DictList model.reactions / metabolites / genes / groups in list order, `oid` the identifier
@@ -80,12 +81,14 @@ Definition set_rgenes (r : Z) (l : list Z) (s : st) : st :=
 Definition set_gback (g : Z) (l : list Z) (s : st) : st :=
   mkSt (lst s) (oid s) (omod s) (members s) (kind s) (sto s) (mback s) (rgenes s) (updz (gback s) g l).
 
-(* the initial model: the listed objects belong to it, identifiers are the object numbers, no groups *)
+(* the initial model: the listed objects belong to it, an identifier is the object number unless a table says otherwise
+   (legacy identifiers for escape_ID), no groups *)
 Definition assoc {A} (d : A) (t : list (Z * A)) (k : Z) : A :=
   match find (fun e => fst e =? k) t with Some e => snd e | None => d end.
-Definition init (rs ms gs : list Z) (sto0 : list (Z * list (Z * Z))) (mb0 rg0 gb0 : list (Z * list Z)) : st :=
+Definition init (rs ms gs : list Z) (idr idm idg idp : list (Z * Z))
+                (sto0 : list (Z * list (Z * Z))) (mb0 rg0 gb0 : list (Z * list Z)) : st :=
   mkSt (fun c => match c with CR => rs | CM => ms | CG => gs | CP => [] end)
-       (fun _ x => x)
+       (fun c x => match c with CR => assoc x idr x | CM => assoc x idm x | CG => assoc x idg x | CP => assoc x idp x end)
        (fun c x => match c with CR => memz x rs | CM => memz x ms | CG => memz x gs | CP => false end)
        (fun _ => []) (fun _ => 0) (assoc [] sto0) (assoc [] mb0) (assoc [] rg0) (assoc [] gb0).
 
@@ -245,6 +248,44 @@ Definition set_id (c : cls) (x i : Z) (s : st) : st * res :=
     else (set_oid c x i s, Ok)
   else (set_oid c x i s, Ok).
 
+(* ---------- cobra.manipulation.modify.escape_ID(model) ----------
+   for x in chain([model], model.metabolites, model.reactions, model.genes): x.id = _escape_str_id(x.id)
+   -- the identifier setter above for every object, in this order; the first refusal ends the call with what has been
+   renamed so far.  `f` is _escape_str_id on identifier numbers: the harness evaluates the REAL function on the
+   identifiers the model has and passes the result as a table.  Then the rules are escaped and model.repair() rebuilds
+   the indices and the back references of the listed metabolites and genes from the listed reactions. *)
+Fixpoint escape_list (f : Z -> Z) (c : cls) (l : list Z) (s : st) : st * res :=
+  match l with
+  | [] => (s, Ok)
+  | x :: r => match set_id c x (f (oid s c x)) s with
+              | (s1, Ok) => escape_list f c r s1
+              | (s1, e) => (s1, e)
+              end
+  end.
+Definition repair_rel (s : st) : st :=
+  mkSt (lst s) (oid s) (omod s) (members s) (kind s) (sto s)
+       (fun m => if memz m (lst s CM) then filter (fun r => memz m (map fst (sto s r))) (lst s CR) else mback s m)
+       (rgenes s)
+       (fun g => if memz g (lst s CG) then filter (fun r => memz g (rgenes s r)) (lst s CR) else gback s g).
+Definition escape_ids (tbl : list (Z * Z)) (s : st) : st * res :=
+  let f := fun i => assoc i tbl i in
+  match escape_list f CM (lst s CM) s with
+  | (s1, Ok) =>
+      match escape_list f CR (lst s1 CR) s1 with
+      | (s2, Ok) =>
+          match escape_list f CG (lst s2 CG) s2 with
+          | (s3, Ok) => (repair_rel s3, Ok)
+          | x => x
+          end
+      | x => x
+      end
+  | x => x
+  end.
+
+(* reaction.bounds = (lb, ub): nothing of this kernel's state changes (ValueError for lb > ub); the check observes that
+   the column found under the reaction's identifier carries the bounds *)
+Definition set_bounds (r lb ub : Z) (s : st) : st * res := if ub <? lb then (s, RaiseValueError) else (s, Ok).
+
 Inductive op :=
 | AddGroups (l : list Z)
 | RemoveGroups (l : list Z)
@@ -254,7 +295,9 @@ Inductive op :=
 | RemoveRxn (r : Z) (orphans : bool)
 | RemoveMet (m : Z) (destructive : bool)
 | RemoveGenes (l : list Z) (remove_reactions : bool)
-| SetId (c : cls) (x i : Z).
+| SetId (c : cls) (x i : Z)
+| EscapeIds (tbl : list (Z * Z))
+| SetBounds (r lb ub : Z).
 
 Definition step (v : variant) (s : st) (o : op) : st * res :=
   match o with
@@ -267,6 +310,8 @@ Definition step (v : variant) (s : st) (o : op) : st * res :=
   | RemoveMet m d => (remove_met v m d s, Ok)
   | RemoveGenes l rr => remove_genes v l rr s
   | SetId c x i => set_id c x i s
+  | EscapeIds tbl => escape_ids tbl s
+  | SetBounds r lb ub => set_bounds r lb ub s
   end.
 
 Definition run (v : variant) (ops : list op) (s : st) : st := fold_left (fun s o => fst (step v s o)) ops s.
